@@ -252,6 +252,15 @@ func detail(sh *gen.C12Sheet, rd *gen.C12Read, v *view, obs []obsRec, extra map[
 	return d
 }
 
+// sheetShown: the sheet as shown in evidence samples (the filler of a long line is abbreviated; replays keep it).
+func sheetShown(sh *gen.C12Sheet) string {
+	if !sh.LongLine {
+		return sh.Text
+	}
+	n := strings.Count(sh.Text, "lorem ipsum ")
+	return strings.Replace(strings.ReplaceAll(sh.Text, "lorem ipsum ", ""), "comment=;", fmt.Sprintf("comment=<'lorem ipsum ' x %d>;", n), 1)
+}
+
 func silence() { log.SetLevel(log.ErrorLevel) }
 
 // sheetFor draws the sheet of a case and loads it with the real reader.
@@ -305,7 +314,7 @@ func runConstruct(c *core.Ctx) {
 			c.Violate(cause, what, detail(sh, rd, &v, obs, nil))
 		}
 		if k == 1 {
-			c.Sample(map[string]any{"sheet": sh.Text, "option_e": sh.CmdErr, "read_class": rd.Class, "read": v.seq, "expected": v.exp})
+			c.Sample(map[string]any{"sheet": sheetShown(sh), "option_e": sh.CmdErr, "read_class": rd.Class, "read": v.seq, "expected": v.exp})
 		}
 	}
 	c.Count("evaluations", evals)
@@ -349,7 +358,7 @@ func runStrand(c *core.Ctx) {
 			c.Violate(feature(cause, v1.far || v2.far), what, detail(sh, rd, &v1, o1, map[string]any{"reverse_complement_read": v2.seq, "observed_reverse_complement": o2}))
 		}
 		if k == 1 {
-			c.Sample(map[string]any{"sheet": sh.Text, "read": v1.seq, "reverse_complement": v2.seq, "read_class": rd.Class})
+			c.Sample(map[string]any{"sheet": sheetShown(sh), "read": v1.seq, "reverse_complement": v2.seq, "read_class": rd.Class})
 		}
 	}
 	c.Count("evaluations", evals)
@@ -513,7 +522,7 @@ func runSafety(c *core.Ctx) {
 			}
 		}
 		if k == 1 {
-			c.Sample(map[string]any{"sheet": sh.Text, "read_class": rd.Class, "read": seq, "records": obs})
+			c.Sample(map[string]any{"sheet": sheetShown(sh), "read_class": rd.Class, "read": seq, "records": obs})
 		}
 	}
 	c.Count("evaluations", evals)
@@ -528,7 +537,7 @@ func init() {
 		Level: "exploration",
 		Rule: "each case = one random well-formed sample sheet (legacy ngsfilter text or CSV with @param lines; 1-3 markers; tag forms f:r, t, f:-, -:r; tag length 1-10; spacers 0-3 global / per direction / per primer; matching strict, hamming, indel; primer mismatch budget 0-3 from the sheet or from -e) loaded by the real obiformats.ReadNGSFilter, and 100-160 reads assembled from it (flank + tag + spacer + forward primer + barcode + rc(reverse primer) + spacer + rc(tag) + flank, either orientation; primer mismatches within and one over the budget, at the ends of the primer; tag substitutions and indels; undeclared tag combinations; chimeras of two amplicons; truncated priming sites; reads without site; flanks up to 12 kb) run through the real ExtractMultiBarcodeSliceWorker and through the obimultiplex command. " +
 			"construct/e2e: only reads for which an independent brute-force matcher finds exactly the constructed priming sites are judged; expected sample = unique nearest declared tag under the declared mode computed by the harness. strand: read vs reverse complement. safety: hostile reads (near-tie tags, random tags, foreign tags, delimiter/rescue extraction, truncations); the verdict is recomputed from the annotations of each output record alone. " +
-			"Added later: concurrent sub-check (one demultiplexing worker shared by 2-16 goroutines, approximate tag matching preferred). " +
+			"Added later: concurrent sub-check (one demultiplexing worker shared by 2-16 goroutines, approximate tag matching preferred). legacy sheets with one sample line beyond 64 KiB. " +
 			"distinct_nontrivial = distinct (sheet shape: format, markers, matching, tag form, tag lengths, spacers, budgets, -e) x (read class, per amplicon: form, direction, tag lengths, spacers, primer mismatches, assigned or flagged) classes of reads that contain at least one complete amplicon (construct, strand, e2e) + distinct (format, matching, form, exact/nearest, tag lengths, delimiter, direction, tag distances) classes of records that carry a sample (safety)",
 		Assume: []string{
 			"a sheet is well-formed when all tags of one primer have the same length, tag pairs are unique per marker and primers are distinct",
